@@ -427,12 +427,64 @@ def r2_6(ctx):
         ctx.bad("R2.6", sel.module, sel.qual, "self.clients[client.name] = client", "a session that selects the mailbox is no longer registered with it: it is never told about new messages, expunges or flag changes", sel.node.lineno)
 
 
+def r2_7(ctx):
+    """An allocator hands out the value *it* computed.  `self.counter += 1; await <store it>; return self.counter` re-reads the
+    shared counter after a suspension point: every caller that drew a value while this one waited for the database has
+    advanced it, and all of them return the last one - several mailboxes created at the same moment (the folder scan
+    activates new folders concurrently) share one UIDVALIDITY.  So: a function that advances an attribute of `self` and then
+    awaits does not return (a value read from) that attribute afterwards; it returns a local it bound before the await."""
+    p = ctx.p
+    n = 0
+    for fi in list(p.funcs_in("user_server")) + list(p.funcs_in("mbox")):
+        if not isinstance(fi.node, ast.AsyncFunctionDef):
+            continue
+        incs = []
+        for w in body_walk(fi.node):
+            if isinstance(w, ast.AugAssign) and isinstance(w.target, ast.Attribute) and isinstance(w.target.value, ast.Name) and w.target.value.id == "self":
+                incs.append((w, norm(w.target)))
+            elif isinstance(w, ast.Assign) and len(w.targets) == 1 and isinstance(w.targets[0], ast.Attribute) and isinstance(w.targets[0].value, ast.Name) and w.targets[0].value.id == "self" and norm(w.targets[0]) in norm(w.value) and isinstance(w.value, ast.BinOp):
+                incs.append((w, norm(w.targets[0])))
+        if not incs:
+            continue
+        g = None
+        for w, tgt in incs:
+            rets = [r for r in body_walk(fi.node) if isinstance(r, ast.Return) and r.value is not None and any(isinstance(x, ast.Attribute) and norm(x) == tgt for x in ast.walk(r.value))]
+            if not rets:
+                continue
+            g = g or ctx.cfg(fi)
+            ctx.analysed(fi)
+            wn = [x for x in g.nodes_for(w) if g.nodes[x].kind == "stmt"]
+            ctx.require(wn, f"{fi.qual}: CFG node of `{norm(w)}` not found")
+            for r in rets:
+                n += 1
+                rn = [x for x in g.nodes_for(r)]
+                reach_all = flow.reach(g, [wn[0]], flow.NORMAL)
+                quiet = flow.reach(g, [wn[0]], flow.NORMAL, avoid=lambda x: g.nodes[x].awaits and x != wn[0])
+                if rn and rn[0] in reach_all and rn[0] not in quiet:
+                    ctx.bad("R2.7", fi.module, fi.qual, f"{norm(w)} ... await ... {norm(r)}", f"{fi.name}() advances `{tgt}`, suspends, and then returns `{tgt}` as it is after the suspension: callers that ran in between have advanced it too, and all of them get the same (last) value - e.g. the same UIDVALIDITY for mailboxes created at the same moment", r.lineno)
+                else:
+                    ctx.ok("R2.7", where(fi), f"`{tgt}` is not re-read after a suspension point for the value handed out")
+    # the allocator itself: binds the new value to a local before it awaits, stores and returns that local
+    from .common import pm_of
+    al = p.func("user_server.IMAPUserServer.get_next_uid_vv")
+    ctx.analysed(al)
+    pa = pm_of(p, al)
+    if any(pa.has(x) for x in (
+        "self.uid_vv += 1\nuid_vv = self.uid_vv\nawait self.db.execute('UPDATE user_server SET uid_vv = ?', (str(uid_vv),), commit=True)\nreturn uid_vv",
+        "uid_vv = self.uid_vv + 1\nself.uid_vv = uid_vv\nawait self.db.execute('UPDATE user_server SET uid_vv = ?', (str(uid_vv),), commit=True)\nreturn uid_vv",
+    )):
+        ctx.ok("R2.7", where(al), "get_next_uid_vv: advance, bind to a local, persist that local, return that local")
+    elif not any(f.rule == "R2.7" for f in ctx.findings):
+        ctx.bad("R2.7", al.module, al.qual, "uid_vv = self.uid_vv (before the await) ... return uid_vv", "get_next_uid_vv no longer hands out the value it computed before it suspended", al.node.lineno)
+
+
 def run(ctx):
     ctx.do(r2_1)
     ctx.do(r2_2)
     ctx.do(r2_3)
     ctx.do(r2_4)
     ctx.do(r2_6)
+    ctx.do(r2_7)
     from . import c03, c05, c13
     ctx.do(c03.r3_1_2)
     ctx.do(c03.r3_5)
